@@ -907,9 +907,15 @@ type verifRandSrc struct {
 	rec    []uint64
 	pos    int
 	replay bool
+	base   int // call depth at the start of the harness (0 = no recursion bound checked)
 }
 
 func (r *verifRandSrc) next() uint64 {
+	if r.base != 0 {
+		// termination of recursive types: the generator's depth limit (maxDepth <= 5) bounds the nesting of generated values, so
+		// the call depth of FillRandom is bounded whatever the source returns; RDEPTH is far above what the limit allows
+		verifAssert(verifCallDepth()-r.base <= verifParam("RDEPTH", 100), "random-filling-recursion-is-bounded")
+	}
 	if r.replay {
 		v := r.rec[r.pos] // running past the recorded draws = nondeterministic consumption -> index panic
 		r.pos++
@@ -934,13 +940,22 @@ func (r *verifRandSrc) NormFloat64() float64 {
 func verifH_C18(d *verifDesc) {
 	L := uint32(verifParam("L", 2))
 	ctx := basictl.RandgeneratorContext{SizeHandler: func(x uint32) uint32 { return x % (L + 1) }}
-	src := &verifRandSrc{}
+	src := &verifRandSrc{base: verifCallDepth()}
 	v := d.newObj()
 	d.fillRandom(v, basictl.NewRandGeneratorWithContext(src, ctx))
+	src.base = 0
 	verifCover("filled")
 	var w1 []byte
 	var e1 error
-	if d.hasTL1 {
+	// TL2-native types (declared in .tl2 files) carry TL1 methods that only return "not implemented for tl2 type": recognised by
+	// their zero value being unwritable (every TL1 type writes its zero value)
+	hasTL1 := d.hasTL1
+	if hasTL1 && d.hasTL2 {
+		if _, e0 := d.newObj().(verifTL1).WriteTL1General(nil); e0 != nil {
+			hasTL1 = false
+		}
+	}
+	if hasTL1 {
 		w1, e1 = v.(verifTL1).WriteTL1General(nil)
 		verifAssert(e1 == nil, "tl1-writer-accepts-random-value")
 		if e1 == nil {
@@ -964,7 +979,7 @@ func verifH_C18(d *verifDesc) {
 	u := d.newObj()
 	d.fillRandom(u, basictl.NewRandGeneratorWithContext(src2, ctx))
 	verifAssert(src2.pos == len(src.rec), "same-number-of-draws")
-	if d.hasTL1 && e1 == nil {
+	if hasTL1 && e1 == nil {
 		w2, e2 := u.(verifTL1).WriteTL1General(nil)
 		verifAssert(e2 == nil && verifBytesEq(w1, w2), "same-seed-same-tl1")
 	}
